@@ -244,14 +244,14 @@ func runHistory(c *hx.Ctx, h *history, emit bool) (results []string) {
 			coqRes = "ROk" // has no model counterpart; reported by the oracle above
 		}
 		if (i+1)%8 == 0 || i == len(h.Ops)-1 {
-			steps = append(steps, fmt.Sprintf("mkStep %d %s %s true [] %s", o.Height, o.coq(), coqRes, post.coq()))
+			steps = append(steps, fmt.Sprintf("mkStep %d %s %s true false [] %s", o.Height, o.coq(), coqRes, post.coq()))
 		} else {
-			d, del := diff(pre, post)
+			d, del, pchg := diff(pre, post)
 			var dl []string
 			for _, k := range del {
 				dl = append(dl, fmt.Sprint(k))
 			}
-			steps = append(steps, fmt.Sprintf("mkStep %d %s %s false %s %s", o.Height, o.coq(), coqRes, hx.CoqList(dl), d.coq()))
+			steps = append(steps, fmt.Sprintf("mkStep %d %s %s false %s %s %s", o.Height, o.coq(), coqRes, hx.CoqBool(pchg), hx.CoqList(dl), d.coq()))
 		}
 		fmt.Fprintf(&sig, "%s:%s;", o.Kind, res)
 		pre = post
